@@ -257,16 +257,18 @@ func (CodecJSON) Name() string { return "json" }
 
 type codecHTTPBody struct{}
 
+var errHTTPBodyCodec = fmt.Errorf("google.api.HttpBody is not a message encoding")
+
 func (codecHTTPBody) Marshal(v interface{}) ([]byte, error) {
-	panic("not implemented")
+	return nil, errHTTPBodyCodec
 }
 
 func (codecHTTPBody) MarshalAppend(b []byte, v interface{}) ([]byte, error) {
-	panic("not implemented")
+	return nil, errHTTPBodyCodec
 }
 
 func (codecHTTPBody) Unmarshal(data []byte, v interface{}) error {
-	panic("not implemented")
+	return errHTTPBodyCodec
 }
 
 func (codecHTTPBody) Name() string { return "body" }
